@@ -41,7 +41,10 @@ def run_standard(mod, ctx):
             vcore.note_case(ctx, ln)
         ctx.samples = lines[:3] + lines[len(lines) // 2: len(lines) // 2 + 3] + lines[-2:]
         t = time.time()
-        model_out = vcore.run_model(ctx, lines)
+        if hasattr(mod, "MODEL_OUT"):       # generator already ran the model interactively (stateful histories)
+            model_out = mod.MODEL_OUT
+        else:
+            model_out = vcore.run_model(ctx, lines)
         ctx.log("model ran %d ops in %.1fs" % (len(lines), time.time() - t))
         kinds = {}
         for l, m in zip(lines, model_out):
